@@ -42,33 +42,70 @@ def run(ctx):
                                     for c in walk_no_nested(n.ast)):
             if any(fg.reaches(p, n.id, exc=False) for p in persist_nodes):
                 setseq_after.append(n.id)
+    # the written value as <tag of the message> + offset, through the reaching definitions of the locals involved
+    from sa.guards import reaching_defs
+    sg = CFG(fn)
+    rd = reaching_defs(sg, exc=False)
+    node_of = {}
+    for n in sg.nodes:
+        if n.kind == "stmt":
+            node_of[id(n.ast)] = n.id
+
+    def lin(e, nid, depth=0):
+        """set of (source, offset): source is a tag number, 'const' or '?'"""
+        if depth > 8:
+            return {("?", 0)}
+        if isinstance(e, ast.Constant) and isinstance(e.value, int) and not isinstance(e.value, bool):
+            return {("const", e.value)}
+        if isinstance(e, ast.BinOp) and isinstance(e.op, (ast.Add, ast.Sub)):
+            sign = 1 if isinstance(e.op, ast.Add) else -1
+            out = set()
+            for (sa_, oa) in lin(e.left, nid, depth + 1):
+                for (sb, ob) in lin(e.right, nid, depth + 1):
+                    if sb == "const":
+                        out.add((sa_, oa + sign * ob))
+                    elif sa_ == "const" and sign == 1:
+                        out.add((sb, oa + ob))
+                    else:
+                        out.add(("?", 0))
+            return out
+        if isinstance(e, ast.Call) and isinstance(e.func, ast.Name) and e.func.id == "int" and len(e.args) == 1 and not e.keywords:
+            return lin(e.args[0], nid, depth + 1)
+        if isinstance(e, ast.Subscript):
+            t = fold.tag(e.slice)
+            return {(t, 0)} if t else {("?", 0)}
+        if isinstance(e, ast.Name):
+            ds = rd.get(nid, {}).get(e.id)
+            if not ds:
+                return {("?", 0)}
+            out = set()
+            for d in ds:
+                a = sg.nodes[d].ast
+                if isinstance(a, ast.Assign) and len(a.targets) == 1 and isinstance(a.targets[0], ast.Name):
+                    out |= lin(a.value, d, depth + 1)
+                else:
+                    out.add(("?", 0))
+            return out
+        return {("?", 0)}
     for w in writes:
-        # value must be <local> + 1 ; follow the local's definitions
-        val = w.value
-        base = None
-        if isinstance(val, ast.BinOp) and isinstance(val.op, ast.Add) and isinstance(val.right, ast.Constant) and val.right.value == 1:
-            base = val.left
-        if not isinstance(base, ast.Name):
-            ctx.instance("C09.live-vs-durable", f"set_next_num_in[{short(val, 30)}]", False,
-                         "the inbound counter is no longer written as <accepted number> + 1", loc(w))
-            continue
-        defs = [n for n in walk_no_nested(fn) if isinstance(n, ast.Assign) and isinstance(n.targets[0], ast.Name) and n.targets[0].id == base.id]
-        for d in defs:
-            tags = [fold.tag(s.slice) for s in walk_no_nested(d.value) if isinstance(s, ast.Subscript)]
-            tags = [t for t in tags if t]
-            tag = tags[0] if tags else None
-            offset = isinstance(d.value, ast.BinOp)
+        wn = node_of.get(id(w))
+        forms = lin(w.value, wn) if wn is not None else {("?", 0)}
+        for tag, off in sorted(forms, key=str):
+            if tag in ("?", "const"):
+                ctx.instance("C09.live-vs-durable", f"set_next_num_in[{short(w.value, 30)}]", False,
+                             "the inbound counter is no longer written as <number carried by the message> + constant", loc(w))
+                continue
             name = {"34": "MsgSeqNum", "36": "NewSeqNo"}.get(tag, str(tag))
-            if tag == "34" and not offset:
+            if tag == "34" and off == 1:
                 ok = True
                 why = ""
             else:
-                # live counter comes from another tag: needs an explicit durable write after journaling
+                # live counter is not <the frame's own MsgSeqNum> + 1: needs an explicit durable write after journaling
                 ok = bool(setseq_after)
-                why = (f"the live inbound counter is set from tag {tag} ({name}) while persist_msg(INBOUND) stores the frame's own MsgSeqNum: "
-                       "after a gap fill / reset spanning several numbers the restored counter differs from the live one")
-            ctx.instance("C09.live-vs-durable", f"FIXSession.set_next_num_in[{name}]", ok, why, loc(d),
-                         sample={"rule": "C09.live-vs-durable", "write": short(w, 50), "provenance": short(d.value, 50), "tag": tag})
+                why = (f"the live inbound counter is set to tag {tag} ({name}) {off:+d} while persist_msg(INBOUND) stores the frame's own MsgSeqNum and the "
+                       "loaders restore stored+1: after a gap fill / reset spanning several numbers the restored counter differs from the live one")
+            ctx.instance("C09.live-vs-durable", f"FIXSession.set_next_num_in[{name}]", ok, why, loc(w),
+                         sample={"rule": "C09.live-vs-durable", "write": short(w, 50), "provenance": f"tag {tag} {off:+d}", "tag": tag})
     # outbound: allocator increments by one <-> persist_msg stores tag 34 of the frame (C05 rules); connection-level writers:
     for attr in ("next_num_in", "next_num_out"):
         for q, nodes in res.writers_of(attr).items():
